@@ -155,6 +155,9 @@ var templates = []string{
 	"%s %% make(uint)", "make(uint64) << %s", "%s >> make(byte)", "make(uint64) & %s", "-make(uint64)", "^make(byte)", "!make(uint32)", "make(uint64) == %s", "%s != make(rune)", "switch make(uint64) { case %s: 1 }", "switch %s { case make(byte): 1 }", "%s in []uint64{1}", "make(uint64) in %s",
 	"make([]int64, make(uint64))", "make(chan int64, make(byte))", "l[make(uint32)]", "l[:make(byte)]", "l[make(uint):]", "for x in make(uint64) { }", "ux = make(uint64)\nux++\nux += %s\nux -= %s\nux", "ub = make([]byte, 2)\nub[0] = %s\nub[0]++\nub[1] += %s\nub", "uf = make(float32)\nuf += %s\nuf < %s",
 	"\"ab\" * make(uint64)", "make(uint64) * \"ab\"", "(make(uint32) ? 1 : 2)", "(make(byte) ?? %s)", "if make(uint64) { 1 }", "for make(uint32) { break }", "toInt(make(uint64)) + toFloat(make(byte))", "takesInt(make(uint64), %s)", "[]int64{make(uint64), %s}", "map[uint64]int64{make(byte): %s}",
+	// type names qualified by a path of namespaces whose later elements are not modules
+	"make(mod.x.T)", "new(mod.g.int64)", "[]mod.x.int64{}", "map[string]mod.g.T{}", "make([]mod.x.T, 1)", "make(chan mod.x.T)", "module m3 { module m4 { y = 1 } }\nmake(m3.m4.y.T)", "module m3 { module m4 { y = 1 } }\nmake(m3.m4.int64)\nnew(m3.y.T)\nmake(m3.m4.m5.T)",
+	"module m3 { m4 = %s }\nmake(m3.m4.T)", "make(mod.%s.T)", "make(type TQ, 1)\nmodule m3 { make(type TR, %s) }\nmake(m3.TR)\nmake(m3.TQ)\nmake(m3.TR.x)",
 	"try { %s(%s) } catch e { e.Error() }", "try { throw %s } catch e { e = %s }", "module m2 { a = %s }; m2.a(%s)", "x = %s; x.y = %s", "x = %s; x[0] = %s; x",
 }
 
